@@ -2,7 +2,7 @@
 use bytes::Bytes;
 use http_body_util::{BodyExt, Full};
 use jsonrpsee_core::middleware::RpcServiceBuilder;
-use jsonrpsee_server::{http as jhttp, stop_channel, ConnectionGuard, ConnectionState, Methods, RpcModule, Server, ServerConfig};
+use jsonrpsee_server::{http as jhttp, stop_channel, BatchRequestConfig, ConnectionGuard, ConnectionState, Methods, RpcModule, Server, ServerConfig};
 use jsonrpsee_types::ErrorObjectOwned;
 use serde_json::{json, Value};
 use std::sync::atomic::{AtomicUsize, Ordering};
@@ -23,6 +23,16 @@ fn module(hits: Arc<AtomicUsize>) -> RpcModule<()> {
     m.register_blocking_method("boom", move |_, _, _| -> u64 {
         h.fetch_add(1, Ordering::SeqCst);
         panic!("handler failure injected by the replay")
+    })
+    .unwrap();
+    let h = hits.clone();
+    m.register_method("add2", move |p, _, _| -> Result<u64, ErrorObjectOwned> {
+        h.fetch_add(1, Ordering::SeqCst);
+        let mut seq = p.sequence();
+        let a: u64 = seq.next()?;
+        let b: u64 = seq.next()?;
+        let c: Option<u64> = seq.optional_next()?;
+        Ok(a + b + c.unwrap_or(0))
     })
     .unwrap();
     let h = hits;
@@ -68,6 +78,10 @@ fn battery() -> Vec<(String, Want)> {
         (call("null", "echo", "[9]"), Want::Result(json!(9), Value::Null)),
         (call("2", "aecho", "[10]"), Want::Result(json!(10), json!(2))),
         (call("4", "nope", "[5]"), Want::Error(-32601, json!(4))),
+        (call("21", "add2", "[7,3]"), Want::Result(json!(10), json!(21))),
+        (call("22", "add2", "[ 7 , 3 ]"), Want::Result(json!(10), json!(22))),
+        (call("23", "add2", "[7\n,\t3 , 5]"), Want::Result(json!(15), json!(23))),
+        (call("24", "add2", "[7]"), Want::Error(-32602, json!(24))),
         (call("5", "echo", "[\"x\"]"), Want::Error(-32602, json!(5))),
         (call("6", "echo", "{\"a\":1}"), Want::Error(-32602, json!(6))),
         (r#"{"jsonrpc":"2.0","method":"echo","params":[5]}"#.into(), Want::Nothing),
@@ -143,6 +157,10 @@ fn judge(msg: &str, want: &Want, replies: &[Value], hits: usize, transport: &str
 }
 
 async fn http_one(body: &str, methods: Methods) -> (u16, String) {
+    http_one_with(body, methods, ServerConfig::default()).await
+}
+
+async fn http_one_with(body: &str, methods: Methods, cfg: ServerConfig) -> (u16, String) {
     let req = http::Request::builder()
         .method("POST")
         .uri("/")
@@ -151,7 +169,7 @@ async fn http_one(body: &str, methods: Methods) -> (u16, String) {
         .unwrap();
     let (stop, _h) = stop_channel();
     let conn = ConnectionState::new(stop, 0, ConnectionGuard::new(4).try_acquire().unwrap());
-    let rp = jhttp::call_with_service_builder(req, ServerConfig::default(), conn, methods, RpcServiceBuilder::new()).await;
+    let rp = jhttp::call_with_service_builder(req, cfg, conn, methods, RpcServiceBuilder::new()).await;
     let st = rp.status().as_u16();
     let b = rp.into_body().collect().await.map(|c| c.to_bytes()).unwrap_or_default();
     (st, String::from_utf8_lossy(&b).to_string())
@@ -185,11 +203,17 @@ pub fn messages(a: &Value) -> Value {
     rt.block_on(async move {
         let mut why: Vec<String> = vec![];
         let mut observed = vec![];
+        // what a *single* message gets does not depend on how the server treats batches: the battery runs under each setting
+        let settings: Vec<(&str, fn() -> BatchRequestConfig)> =
+            vec![("", || BatchRequestConfig::Unlimited), ("[batches disabled] ", || BatchRequestConfig::Disabled), ("[batch limit 1] ", || BatchRequestConfig::Limit(1))];
+        for (label, batch_cfg) in settings {
+        let mk_cfg = || ServerConfig::builder().set_batch_request_config(batch_cfg()).build();
+        let first_why = why.len();
         // ---- HTTP
         let mut http_out: Vec<Vec<Value>> = vec![];
         for (msg, want) in &bat {
             let hits = Arc::new(AtomicUsize::new(0));
-            let (st, body) = http_one(msg, module(hits.clone()).into()).await;
+            let (st, body) = http_one_with(msg, module(hits.clone()).into(), mk_cfg()).await;
             match http_replies(st, &body) {
                 Ok(rs) => {
                     if let Some(w) = judge(msg, want, &rs, hits.load(Ordering::SeqCst), "http") {
@@ -205,7 +229,7 @@ pub fn messages(a: &Value) -> Value {
         }
         // ---- WS: one connection, all messages in order
         let hits = Arc::new(AtomicUsize::new(0));
-        let server = Server::builder().build("127.0.0.1:0").await.unwrap();
+        let server = Server::builder().set_config(mk_cfg()).build("127.0.0.1:0").await.unwrap();
         let addr = server.local_addr().unwrap();
         let handle = server.start(module(hits.clone()));
         let sock = TcpStream::connect(addr).await.unwrap();
@@ -280,6 +304,10 @@ pub fn messages(a: &Value) -> Value {
             }
         }
         let _ = handle.stop();
+        for w in why.iter_mut().skip(first_why) {
+            w.insert_str(0, label);
+        }
+        }
         json!({"scenario":"c01_messages","observed":{"n": bat.len(), "first": observed.iter().take(6).collect::<Vec<_>>()},
                "violation": !why.is_empty(), "why": why.join(" | ")})
     })
